@@ -28,7 +28,7 @@ pub struct History {
     pub ops: Vec<Op>,
 }
 
-const LIMIT: u64 = 1 << 40;
+const LIMIT: u64 = 1 << 56;
 
 fn same_f(a: f64, b: f64) -> bool {
     a.to_bits() == b.to_bits() || (a.is_nan() && b.is_nan())
@@ -255,6 +255,9 @@ fn run_history<H: Hist>(c: &History, o: &mut Obs) -> TestResult {
     if reuse {
         o.class("reset then reuse");
     }
+    if model.iter().any(|m| m.iter().any(|&v| v >= 1 << 53) && m.iter().any(|&v| v % 2 == 1)) {
+        o.class("a count >= 2^53 next to odd counts");
+    }
     if same_edges && bits(&c.edges_a) != bits(&c.edges_b) {
         o.class("edges numerically equal but not bit-identical (-0.0 vs 0.0)");
     }
@@ -301,7 +304,7 @@ pub fn op_strategy(edges: Vec<f64>) -> impl Strategy<Value = Op> {
         }),
         3 => (0usize..4, 0usize..4).prop_map(|(dst, src)| Op::Merge { dst, src }),
         3 => (0usize..4, 0usize..4).prop_map(|(dst, src)| Op::AddAssign { dst, src }),
-        1 => (0usize..4, 0u64..6).prop_map(|(h, k)| Op::Mul { h, k }),
+        1 => (0usize..4, prop_oneof![3 => 0u64..6, 1 => proptest::sample::select(vec![1u64 << 20, 1 << 32, 1 << 53, (1 << 53) + 1, 1 << 55])]).prop_map(|(h, k)| Op::Mul { h, k }),
         1 => (0usize..4).prop_map(|h| Op::Reset { h }),
         1 => (0usize..3, 0usize..3).prop_map(|(dst, src)| Op::Clone { dst, src }),
     ]
@@ -333,14 +336,37 @@ pub fn history_strategy(imp: String, len: usize, max_ops: usize) -> impl Strateg
             }
         }
         let imp = imp.clone();
-        vec(op_strategy(ea.clone()), 0..max_ops).prop_map(move |ops| History { imp: imp.clone(), len, edges_a: ea.clone(), edges_b: eb.clone(), ops })
+        let ea2 = ea.clone();
+        // scenario "big": one bin of histogram 0 is scaled beyond 2^53 (f64 integer
+        // precision), histogram 1 collects many single samples, then 1 is merged into 0
+        let adds_to_1 = vec((any::<proptest::sample::Index>(), 0.0..1.0f64), 10..60).prop_map(move |v| {
+            v.into_iter()
+                .map(|(ix, u)| {
+                    let x = super::c06::samples_around(&ea2, &[(ix, if u < 0.5 { 6 } else { 0 }, u)])[0];
+                    Op::Add { h: 1, x: fstr::enc(x) }
+                })
+                .collect::<Vec<Op>>()
+        });
+        let ea3 = ea.clone();
+        (0u8..5, vec(op_strategy(ea.clone()), 0..max_ops), adds_to_1, any::<proptest::sample::Index>(), proptest::sample::select(vec![1u64 << 53, 1 << 54, (1 << 53) + 2])).prop_map(move |(scenario, mut ops, adds, ix, k)| {
+            if scenario == 0 {
+                let x = super::c06::samples_around(&ea3, &[(ix, 6, 0.5)])[0];
+                let mut pre = vec![Op::Reset { h: 0 }, Op::Add { h: 0, x: fstr::enc(x) }, Op::Mul { h: 0, k }];
+                pre.extend(adds);
+                pre.push(Op::Merge { dst: 0, src: 1 });
+                ops.truncate(4);
+                pre.extend(ops);
+                ops = pre;
+            }
+            History { imp: imp.clone(), len, edges_a: ea.clone(), edges_b: eb.clone(), ops }
+        })
     })
 }
 
 pub fn run(cx: &Ctx) {
-    cx.set_rule("cases = histories over a pool of four histograms (three on one edge vector, one on a second vector that is identical, numerically equal but with -0.0/0.0 swapped, or different in one edge): add, merge, +=, *= k (k <= 5), reset, clone, executed on the real histograms and on a model (edge vector + Vec<u64>); after every step all counts and edges are compared with the model; every merge/+= is executed both ways on clones (both must give the bin-wise sum, or — for numerically different edges — both must panic leaving both operands bit-identical); at the end a+b = b+a, (a+b)+c = a+(b+c) for merge and for +=, and iteration, widths, centers, normalized_bins (NaN-aware, IEEE semantics for infinite/zero-width bins), variance(i), variances() are compared with their definitions. LEN in {1,2,3,4,10,100}, every implementation in the build. Non-trivial = history contains a merge or += between two non-empty histograms; distinct = hash of (implementation, LEN, edges, history)");
+    cx.set_rule("cases = histories over a pool of four histograms (three on one edge vector, one on a second vector that is identical, numerically equal but with -0.0/0.0 swapped, or different in one edge): add, merge, +=, *= k (k <= 5 or a power of two up to 2^55, so that counts beyond 2^53 occur), reset, clone, executed on the real histograms and on a model (edge vector + Vec<u64>); after every step all counts and edges are compared with the model; every merge/+= is executed both ways on clones (both must give the bin-wise sum, or — for numerically different edges — both must panic leaving both operands bit-identical); at the end a+b = b+a, (a+b)+c = a+(b+c) for merge and for +=, and iteration, widths, centers, normalized_bins (NaN-aware, IEEE semantics for infinite/zero-width bins), variance(i), variances() are compared with their definitions. LEN in {1,2,3,4,10,100}, every implementation in the build. Non-trivial = history contains a merge or += between two non-empty histograms; distinct = hash of (implementation, LEN, edges, history)");
     cx.extra("implementations", serde_json::json!(IMPLS));
-    cx.assume("counts are kept below 2^40 by skipping operations that would exceed it (overflow is outside the property)");
+    cx.assume("counts are kept below 2^57 by skipping operations that would exceed it (u64 overflow is outside the property)");
     cx.label("generated");
     let w = cx.workers.min(8);
     for imp in IMPLS {
